@@ -41,7 +41,9 @@ func init() {
   container nc { leaf nl { type string; }
     choice o { case p { leaf pl { type string; }
         choice q { case r { container deep { leaf z { type string; } } list dl { key k; leaf k { type string; } leaf v { type string; } } leaf dleaf { type string; } } } }
-      case p2 { container shallow { leaf z { type string; } } } } }
+      case p2 { container shallow { leaf z { type string; } } } }
+    choice o2 { case s { leaf o2l { type string; } container o2c { leaf z { type string; } } } }
+    choice o3 { case t { choice o3in { case u { leaf o3l { type string; } } } } } }
 }`
 	eng.Register(&c08{base{id: "C08", level: "model_checking",
 		rule: "for every node (container, list, list entry, leaf) of each data tree (key alphabet with reserved characters '/', ',', '=', '%', space, '+', '..', '?', '#', non-ASCII, empty; int32, enumeration, boolean and compound keys; lists within lists) x every start selection (root, each non-list ancestor, three fixed other nodes via ../ steps) x path variant (plain, module-qualified segments, trailing slash, with a query) Find runs on the real code over a recording store: the selection must be on exactly that schema node with those typed keys and that content, its rendered path must find the same node again, absent keys/containers give (nil,nil), unknown names a not-found error, and the store receives no write. states = distinct (tree,node), transitions = Find executions. Non-trivial = distinct (node,start,variant) for nodes below the root"}})
@@ -153,7 +155,7 @@ func c08Tree(m *meta.Module, name string) *model.Tree {
 			}
 			t.Lists[name] = kl
 		}
-		nc, err := model.FromJSON(model.DefAt(m, "nc").(meta.HasDataDefinitions).DataDefinitions(), []byte(`{"nl":"n","pl":"p","deep":{"z":"z"},"dl":[{"k":"a","v":"1"},{"k":"a/b","v":"2"}],"dleaf":"d"}`))
+		nc, err := model.FromJSON(model.DefAt(m, "nc").(meta.HasDataDefinitions).DataDefinitions(), []byte(`{"nl":"n","pl":"p","deep":{"z":"z"},"dl":[{"k":"a","v":"1"},{"k":"a/b","v":"2"}],"dleaf":"d","o2l":"o","o2c":{"z":"z"},"o3l":"o3"}`))
 		if err != nil {
 			panic(err)
 		}
